@@ -86,12 +86,13 @@ func runTK(t []string) string {
 	return "same"
 }
 
-// HFixedSpec is the spec of the exhaustive sweeps; protocol lines may write it as "@".
+// HFixedSpec is the spec of the exhaustive sweeps (String 2, Numeric 3, composite 55 {0a,0b},
+// composite 60 {n1 {x, y, d {u, v}}, p1}: three composites nested in each other, String 66); protocol lines may write it as "@".
 const HFixedSpec = "m(p(s,4,ascii,ascii.F,nil,d),bm(8,binary,binary.F,1)," +
 	"f(2,p(s,19,ascii,ascii.2,nil,d))," +
 	"f(3,p(n,6,ascii,ascii.F,L30,d))," +
 	"f(55,c(99,ascii.2,t(2,ascii,nil,str,0,-),sub(0a,p(s,9,ascii,ascii.2,nil,d)),sub(0b,p(n,4,ascii,ascii.1,nil,d))))," +
-	"f(60,c(99,ascii.3,t(2,ascii,nil,str,0,-),sub(n1,c(40,ascii.2,t(1,ascii,nil,str,0,-),sub(x,p(s,9,ascii,ascii.1,nil,d)),sub(y,p(s,9,ascii,ascii.1,nil,d)))),sub(p1,p(s,5,ascii,ascii.1,nil,d))))," +
+	"f(60,c(99,ascii.3,t(2,ascii,nil,str,0,-),sub(n1,c(60,ascii.2,t(1,ascii,nil,str,0,-),sub(x,p(s,9,ascii,ascii.1,nil,d)),sub(y,p(s,9,ascii,ascii.1,nil,d)),sub(d,c(30,ascii.2,t(1,ascii,nil,str,0,-),sub(u,p(s,9,ascii,ascii.1,nil,d)),sub(v,p(s,9,ascii,ascii.1,nil,d)))))),sub(p1,p(s,5,ascii,ascii.1,nil,d))))," +
 	"f(66,p(s,5,ascii,ascii.1,nil,d)))"
 
 // HState is the pair of messages a history works on.
